@@ -12,12 +12,12 @@ Model/Print.lean (the `Debug for Cell` printer under `FmtFlags`).
 * Reals: decimal → double (`str::parse::<f64>`) is a parameter, DESIGN §9 C16 "not carried": a real
   literal is `Tok.realLit text` where `text` is exactly what reaches the parser; `real_text`
   states which text that is and when the token is rejected instead.
-* Vectors / maps: stated at token level (`vec_print_tokens`, `map_print_tokens`): the print of
-  a vector/map of integers and bit-strings lexes to `[`/`{`, the element literals (value before key
-  for maps), `]`/`}`, separated by single blanks. That `[ … ]` / `{ v k … }` rebuild the value
-  is C01/C12's compiler+VM business and is checked here on the implementation only
-  (format_cell → eval → `==` / `equal?`). Nested collections: proved for one level
-  (elements are integers or bit-strings); arbitrary nesting is covered by the oracle only.
+* Vectors / maps: stated at token level (`value_print_tokens`, for ANY nesting of vectors and
+  maps over in-range integers and bit-strings): the print lexes without error to `[`/`{`, the
+  element literals (value before key for maps), `]`/`}`, separated by single blanks — the
+  token list `toks v` defined by recursion on the value. That the words `[ … ]` / `{ v k … }`
+  rebuild the value from those tokens is the compiler's and VM's business (C01/C12) and is
+  checked here on the implementation only (format_cell → eval → `==` / `equal?`).
 * Non-default format flags: `hex_print_not_readable` is the proved counterexample backing the
   recorded finding `[nondefault-fmt]` (^hex prints −1 as 32 f's, which the lexer rejects).
 -/
@@ -25,6 +25,7 @@ import XehModel.Proofs.LexTiling
 import XehModel.Proofs.LexNum
 import XehModel.Proofs.LexBits
 import XehModel.Proofs.LexStr
+import XehModel.Proofs.LexSeq
 
 set_option linter.unusedSimpArgs false
 
@@ -271,6 +272,26 @@ theorem bitstr_print_read (pos : Nat) (bs : List Bool) (rest : List Char) :
     scan pos (printBits bs ++ rest) = ⟨.ok (.lit (.bitstr bs)), printBits bs, rest⟩ :=
   scan_printBits pos bs rest
 
+/-! ### vectors and maps of integers and bit-strings (any nesting) -/
+
+/-- the default print of a value built from in-range integers, bit-strings, vectors and maps
+    lexes — without error, nothing lost — to exactly the token list `toks v`: the literal itself
+    for an integer / bit-string; `[`, blank, (element, blank)*, `]` for a vector; `{`, blank,
+    (value, blank, key, blank)*, `}` for a map -/
+theorem value_print_tokens (v : Cell) (h : PV v) :
+    ∃ s, printCell {} v = some s ∧ (run s).items.map (·.tok) = toks v ∧ (run s).err = none := by
+  obtain ⟨s, hs, _, hl⟩ := lexes_cell v h
+  have := (hl [] (Or.inl rfl))
+  rw [List.append_nil] at this
+  exact ⟨s, hs, this.run.1, this.run.2⟩
+
+/-- the same in front of any separator: the print of a value is read back as a unit wherever it
+    is embedded -/
+theorem value_print_tokens_embedded (v : Cell) (h : PV v) :
+    ∃ s, printCell {} v = some s ∧ ∀ rest, Sep rest → Lexes (s ++ rest) (toks v) rest := by
+  obtain ⟨s, hs, _, hl⟩ := lexes_cell v h
+  exact ⟨s, hs, hl⟩
+
 /-! ### the recorded finding: non-default format flags are not readable back -/
 
 /-- under `^hex` (base 16, prefix on) −1 prints as the 128-bit two's-complement pattern … -/
@@ -322,6 +343,14 @@ example : (scan 0 "\"abc\"x".toList).res = .error ⟨.expectWs, 0, 5⟩ := by de
 -- instances of the print/read theorems
 example : scan 7 (printInt {} (-42) ++ " x".toList) = ⟨.ok (.lit (.int (-42))), printInt {} (-42), " x".toList⟩ :=
   int_print_read 7 (-42) (by decide) _ (Or.inr ⟨' ', ['x'], rfl, rfl⟩)
+example : toks (.vec (.cons (.int 1) (.cons (.bitstr [true]) .nil))) =
+    [.word ['['], .ws [' '], .lit (.int 1), .ws [' '], .lit (.bitstr [true]), .ws [' '], .word [']']] := by
+  simp [toks, toksElems]
+example : PV (.map (.cons (.int 1) (.vec (.cons (.int (-2)) .nil)) .nil)) := by
+  simp [PV, PVm, PVs, InRange]
+example : (run "{ [ -2 |x| ] 1 }".toList).items.map (·.tok) =
+    toks (.map (.cons (.int 1) (.vec (.cons (.int (-2)) (.cons (.bitstr [true]) .nil))) .nil)) := by
+  simp only [toks, toksPairs, toksElems]; decide +kernel
 example : printBits [true, false, true, false, true, true, true, true, false, true, true] = "|AF .xx|".toList := by
   simp [printBits, chunks8, joinSp, printChunk, bitsVal, digitChar]
   decide
